@@ -79,5 +79,45 @@ pub fn preconditions_len_3<S: Src>(s: &mut S) { check_seq::<S, 3>(s, &[]) }
 // native-only sampled probe: 8 tokens, all kinds drawn
 pub fn preconditions_len_8<S: Src>(s: &mut S) { check_seq::<S, 8>(s, &[]) }
 
-registry!("c07", preconditions_len_8, preconditions_len_3, preconditions_len_0, preconditions_len_1, preconditions_len_2,
+// ---------------------------------------------------------------- exhaustive native enumeration (bounded, not a proof)
+// `exmex_replay --exhaust` runs a harness body on EVERY draw sequence.  Natively the real pair rules run in 2 us, so
+// lengths far beyond CBMC's reach (3 symbolic token kinds: no result in 50 min) are enumerated completely.
+pub fn preconditions_len_4<S: Src>(s: &mut S) { check_seq::<S, 4>(s, &[]) }
+pub fn preconditions_len_5<S: Src>(s: &mut S) { check_seq::<S, 5>(s, &[]) }
+pub fn preconditions_len_6<S: Src>(s: &mut S) { check_seq::<S, 6>(s, &[]) }
+pub fn preconditions_len_7<S: Src>(s: &mut S) { check_seq::<S, 7>(s, &[]) }
+pub fn preconditions_len_9<S: Src>(s: &mut S) { check_seq::<S, 9>(s, &[]) }
+pub fn preconditions_len_10<S: Src>(s: &mut S) { check_seq::<S, 10>(s, &[]) }
+
+// The parenthesis walk / trailing-operator rule is a property of the whole sequence, the pair rules only of
+// adjacent pairs.  Longer sequences over the four kinds number, `(`, `)`, binary operator, constrained draw by
+// draw to be pair-valid (so the enumeration prunes every continuation of an invalid prefix): rejected iff the
+// parentheses are unbalanced / close before they open or the sequence ends in an operator.
+fn paren_walk<S: Src, const L: usize>(s: &mut S) {
+    const PAL: [u8; 4] = [0, 2, 3, 5];
+    let mut kinds = [0u8; L];
+    for i in 0..L {
+        kinds[i] = PAL[s.choice(4) as usize];
+        if i > 0 { s.assume(!forbidden(kinds[i - 1], kinds[i])); }
+    }
+    let toks: [ParsedToken<'static, i32>; L] = core::array::from_fn(|i| mk_tok(s, kinds[i]));
+    let r = check_parsed_token_preconditions(&toks);
+    if expect_err(&kinds) {
+        assert!(r.is_err(), "C07 unbalanced parentheses (or a closing one before its partner), an empty text or a trailing operator is rejected");
+    } else {
+        assert!(r.is_ok(), "C07 a pair-valid token sequence with balanced parentheses that does not end in an operator passes the precondition check");
+    }
+    core::mem::forget((r, toks));
+}
+pub fn paren_walk_9<S: Src>(s: &mut S) { paren_walk::<S, 9>(s) }
+pub fn paren_walk_10<S: Src>(s: &mut S) { paren_walk::<S, 10>(s) }
+pub fn paren_walk_11<S: Src>(s: &mut S) { paren_walk::<S, 11>(s) }
+pub fn paren_walk_12<S: Src>(s: &mut S) { paren_walk::<S, 12>(s) }
+pub fn paren_walk_13<S: Src>(s: &mut S) { paren_walk::<S, 13>(s) }
+pub fn paren_walk_14<S: Src>(s: &mut S) { paren_walk::<S, 14>(s) }
+pub fn paren_walk_15<S: Src>(s: &mut S) { paren_walk::<S, 15>(s) }
+pub fn paren_walk_16<S: Src>(s: &mut S) { paren_walk::<S, 16>(s) }
+
+registry!("c07", preconditions_len_4, preconditions_len_5, preconditions_len_6, preconditions_len_7, preconditions_len_9, preconditions_len_10,
+    paren_walk_9, paren_walk_10, paren_walk_11, paren_walk_12, paren_walk_13, paren_walk_14, paren_walk_15, paren_walk_16, preconditions_len_8, preconditions_len_3, preconditions_len_0, preconditions_len_1, preconditions_len_2,
     l3_00, l3_01, l3_02, l3_03, l3_10, l3_11, l3_12, l3_13, l3_20, l3_21, l3_22, l3_23, l3_24, l3_25, l3_26, l3_30, l3_31, l3_32, l3_33, l3_40, l3_41, l3_42, l3_43, l3_44, l3_46, l3_50, l3_51, l3_52, l3_53, l3_54, l3_55, l3_56, l3_60, l3_61, l3_62, l3_63, l3_64, l3_66);
